@@ -38,6 +38,10 @@ def main():
                 cnt = res.setdefault("counters", {})
                 for k, v in pc.items():
                     cnt[k] = cnt.get(k, 0) + v
+            if "harness_error" not in res:
+                cnt_ = res.setdefault("counters", {})
+                lvl_ = os.environ.get("VERIF_BLDFM_LOGLEVEL", "ERROR")
+                cnt_[f"cases_run_at_package_verbosity:{lvl_}"] = cnt_.get(f"cases_run_at_package_verbosity:{lvl_}", 0) + 1
             res["_i"] = case.get("_i", 0)
             res["_world"] = os.environ.get("VERIF_KERNEL_WORLD", "S")
             out.write(json.dumps(res, default=jdefault) + "\n")
